@@ -62,7 +62,7 @@ def obligations(tier):
                  unwind=130, unwindset=["strcasecmp.0:17"], object_bits=10, backend="cadical",
                  encodes=["ABTD_env_init", "load_env_int", "load_env_uint32", "load_env_uint64", "load_env_size", "load_env_bool", "roundup_pow2_uint32", "roundup_pow2_size", "get_abt_env", "ABTD_env_get_stack_guard_mprotect"],
                  bounds="one ABTD_env_init; keyword strings <= 16 bytes", symbolic="presence of every variable, parser results (any value of the type or error), keyword bytes, number of cores"))
-    for nda in ([1, 9] if tier == "quick" else [1, 5, 9, 10]):
+    for nda in ([1, 5] if tier == "quick" else [1, 5, 9, 10]):
         o.append(Obl("affgrammar_idlist_%02d" % nda, "C20/affgrammar.c", "parse_es_id_list on \"{A:2:C}\" with A = sign + %d symbolic digits, C = sign + 1 symbolic digit: accepted and expanded to A, A+C whenever that fits in int; no signed overflow, no out-of-bounds access, every block released" % nda,
                      defs=["MODE=3", "NDA=%d" % nda, "ND=1"], unwind=nda + 6, object_bits=10, backend="cadical", timeout=500, mem_gb=8,
                      encodes=["parse_es_id_list", "id_list_create", "id_list_add", "list_calloc", "list_realloc", "list_free_all", "consume_int", "consume_pint", "consume_symbol"],
